@@ -25,6 +25,14 @@ REMOTES = ["203.0.113.7:1234", "203.0.113.7", "203.0.114.7:1", "[2001:db8::5]:44
            "[::ffff:203.0.113.7]:80", "::ffff:203.0.113.7", "198.51.100.1:1", "198.51.100.200:1", "[fe80::1%eth0]:1", "", "garbage",
            " 203.0.113.7:1 ", "[::1]:80", "127.0.0.1:9", "@", "203.0.113.7:", "[203.0.113.7]:5", "10.1.2.3:4", "[2001:db8:1::5]:1",
            "[::ffff:10.1.2.3]:7", "203.0.113.7:1:2"]
+# long allowlists of nested / overlapping prefixes (a list longer than any plausible small-list threshold), and clients inside a broad
+# prefix whose nearest listed neighbours are narrower ranges that do not contain them
+LONG_REMOTE_POOL = ["10.0.0.0/8", "10.20.30.0/24", "10.20.0.0/16", "10.99.0.0/24", "10.200.0.0/13", "172.16.0.0/12", "172.20.1.0/24", "172.31.255.0/24",
+                    "192.168.0.0/16", "192.168.5.0/24", "192.168.5.128/25", "198.51.100.0/25", "203.0.113.0/24", "203.0.113.128/25", "203.0.113.7",
+                    "2001:db8::/32", "2001:db8:1::/48", "2001:db8:1:2::/64", "2001:db8:ffff::/48", "fd00::/8", "fd12:3456::/32"]
+LONG_REMOTES = ["10.99.1.7:40000", "10.20.31.1:1", "10.21.0.1:1", "10.255.255.255:1", "172.20.2.1:1", "172.16.0.1:9", "192.168.6.6:1", "192.168.5.200:1",
+                "203.0.113.5:1", "203.0.113.200:1", "[2001:db8:2::1]:1", "[2001:db8:1:3::1]:1", "[2001:db8:ffff:1::9]:2", "[fd13::1]:1", "[fd12:3456:1::1]:1",
+                "11.0.0.1:1", "172.32.0.1:1", "[2001:db9::1]:1"]
 METHODS = ["POST", "GET", "PUT", "DELETE", "PATCH", "HEAD", "OPTIONS", "post", "PURGE"]
 CFG_METHODS = ["POST", "GET", "PUT", "DELETE", "put", "PATCH"]
 
@@ -50,6 +58,8 @@ def gen_match(rng):
         lines.append("query_exists " + q(rng.choice(Q_NAMES)))
     if rng.random() < 0.25:
         lines.append("remote_ip " + " ".join(q(p) for p in rng.sample(REMOTE_PATTERNS, rng.randint(1, 2))))
+    elif rng.random() < 0.16:
+        lines.append("remote_ip " + " ".join(q(p) for p in rng.sample(LONG_REMOTE_POOL, rng.randint(9, 17))))
     return lines
 
 
@@ -251,7 +261,7 @@ def gen_requests(rng, n_http, n_direct):
         if mode == "direct":
             if not target.startswith("/"):
                 rq["target"] = L.hx("/" + target)
-            rq["remote"] = L.hx(rng.choice(REMOTES))
+            rq["remote"] = L.hx(rng.choice(REMOTES) if rng.random() < 0.65 else rng.choice(LONG_REMOTES))
         return rq
 
     for _ in range(n_http):
